@@ -6,6 +6,7 @@ odML XML files from version 1.0 to 1.1.
 import io
 import json
 import os
+import re
 import uuid
 import yaml
 
@@ -43,6 +44,10 @@ class VersionConverter(object):
         parser = ET.XMLParser(remove_blank_text=True)
         if isinstance(self.filename, io.StringIO):
             doc = self.filename.getvalue()
+            # The stream holds text that is already decoded; lxml refuses such text
+            # when it carries an XML encoding declaration (the first line of every
+            # saved odML file), see XMLReader.from_string.
+            doc = re.sub(r'^<\?xml[^>]*\?>', '', doc, count=1)
             tree = ET.ElementTree(ET.fromstring(doc, parser))
 
         elif os.path.exists(self.filename) and os.path.getsize(self.filename) > 0:
